@@ -123,6 +123,17 @@ Events ==
               post == Repo(b[1] * 10 + b[2] + 500, b[1] + ((b[2] % 3) - 1), (b[2] % 2) = 1) IN
           { Script("mod-" \o ToString(b[1]) \o "-" \o ToString(k) \o "-" \o st \o (IF strict THEN "S" ELSE "L"), pre, post,
                    [kind |-> "modify", at |-> k, strict |-> strict, stamp |-> st, keep |-> FALSE]) : k \in 1..(WalkReqs(pre) + 1), strict \in BOOLEAN, st \in {"add", "erase"} }
+          \* a modification within the same second as the previous one: the reservation is cancelled (every request that
+          \* carries the old one is refused), the time stamps do not move - the refusal is the only signal, and what was
+          \* collected before it belongs to a repository that no longer exists
+          \cup { Script("modsame-" \o ToString(b[1]) \o "-" \o ToString(k), pre, post,
+                        [kind |-> "modify", at |-> k, strict |-> TRUE, stamp |-> "add", keep |-> FALSE, ts |-> <<10, 10, 10, 10>>]) : k \in 1..(WalkReqs(pre) + 1) }
+          \* the same where the records keep their IDs and the first one is replaced (so that a walk that merely carried
+          \* on after reserving again would still find every record it asks for)
+          \cup { LET preF == [i \in 1..4 |-> IF i = 3 THEN OtherRec(100 * i + b[2], 7 + i) ELSE FullRec(100 * i + b[2], 50 + i + Seed)]
+                     postF == [preF EXCEPT ![1] = FullRec(preF[1].id, 90 + Seed)] IN
+                 Script("modsame-inplace-" \o ToString(b[1]) \o "-" \o ToString(k), preF, postF,
+                        [kind |-> "modify", at |-> k, strict |-> TRUE, stamp |-> "add", keep |-> FALSE, ts |-> <<10, 10, 10, 10>>]) : k \in 2..8 }
           \cup { Script("modkeep-" \o ToString(b[1]) \o "-" \o ToString(k) \o "-" \o st, pre, post,
                         [kind |-> "modify", at |-> k, strict |-> TRUE, stamp |-> st, keep |-> TRUE]) : k \in 1..(WalkReqs(pre) + 1), st \in {"add", "erase"} }
           \* reservation kept (33.11.2), so the time stamps are the only signal: the stamp that advances stays older than
